@@ -293,6 +293,8 @@ def _parse_block(lines):
                 opts["keep_attrs"] = True
             elif kw == "nocanary":
                 opts["nocanary"] = True
+            elif kw == "absent-ok":
+                opts["absent_ok"] = True
             elif kw == "omit-shell":
                 opts["omit_shell"] = True
             elif kw in ("lift", "lift-block", "lift-closure", "lift-expr"):
@@ -765,7 +767,15 @@ def assemble(unit_path, repo, units_root):
                     raise UnitError("unterminated block for " + path)
                 i += 1
             opts = _parse_block(block)
-            pieces, fo = build_fn(repo, file, path, opts)
+            try:
+                pieces, fo = build_fn(repo, file, path, opts)
+            except LostAnchor as e:
+                # `absent-ok`: a helper that an edit may legitimately fold back into its caller; the caller's own
+                # obligations then decide (its rewrites of the inlined form are optional `rw?` lines)
+                if opts.get("absent_ok") and "item not found" in str(e):
+                    u.rewrites.append(("%s :: %s" % (file, path), "note", "item absent: skipped (its caller's obligations decide)", 1))
+                    continue
+                raise
             for (rule, what, n) in fo.rewrites:
                 u.rewrites.append(("%s :: %s" % (file, path), rule, what, n))
             if not opts.get("omit_shell"):
